@@ -107,15 +107,18 @@ def gen_case(rng, min_remaps=2, micro=0.0):
         else:
             ops.append({"op": "retrieve", "qs": [meas(0) for _ in range(rng.randint(1, 4))]})
     case["ops"] = ops
+    case["forms"] = archlib.gen_forms(rng)
     return case
 
 
 def make(case):
     from ribs.archives import SlidingBoundariesArchive
     ranges = [(float(fr(a)), float(fr(b))) for a, b in zip(case["lo"], case["hi"])]
+    rform = case.get("forms", {}).get("ranges")
+    ranges = np.array(ranges) if rform == "nd" else ([list(r) for r in ranges] if rform == "lists" else ranges)
     return SlidingBoundariesArchive(solution_dim=case["sol_dim"], dims=case["dims"], ranges=ranges,
                                     remap_frequency=case["freq"], buffer_capacity=case["cap"],
-                                    qd_score_offset=float(fr(case["off"])), dtype=NP[case["dtype"]],
+                                    qd_score_offset=float(fr(case["off"])), dtype=archlib.dtype_arg(case),
                                     extra_fields=archlib.extra_fields(case["layout"]), seed=0)
 
 
@@ -228,7 +231,7 @@ class Run:
             pre = self.obs()
             pre_g = geom(self.a, case)
             try:
-                info = self.a.add_single(sol[0], obj[0], meas[0], **{k: v[0] for k, v in extras.items()})
+                info = archlib.submit(self.a, case, True, sol, obj, meas, extras)
             except Exception as e:  # pylint: disable=broad-except
                 return self.F_("C15", "oracle", f"{where}: a valid add_single raised {type(e).__name__}: {e}")
             status, value = [int(info["status"])], [F(float(info["value"]))]
@@ -236,7 +239,7 @@ class Run:
             pre_states.append((pre, pre_g))
         else:
             try:
-                info = self.a.add(sol, obj, meas, **extras)
+                info = archlib.submit(self.a, case, False, sol, obj, meas, extras)
             except Exception as e:  # pylint: disable=broad-except
                 return self.F_("C15", "oracle", f"{where}: a valid add raised {type(e).__name__}: {e}")
             status = [int(s) for s in info["status"]] if len(rows) else []
